@@ -124,4 +124,27 @@ Proof.
     rewrite <- E. exact Hq. }
   rewrite Hc. lra.
 Qed.
+(* ---- law-free facts used for arbitrary laws (NNM_risk_real.v) ---- *)
+Lemma Mi_step_affine p x : Mi (p ++ [x]) == Mi p + (Mi p * slope (i_par (ifold p)) t) * (x - t).
+Proof. rewrite Mi_snoc, Qred_correct. rewrite fac_affine. ring. Qed.
+Lemma Mi_slope_nonneg p : Forall (fun x => 0 <= x <= u) p -> 0 <= Mi p * slope (i_par (ifold p)) t.
+Proof. intro Hp. pose proof (Mi_nonneg p Hp). pose proof (slope_nonneg (ifold p)). nra. Qed.
+
+Theorem reject_crosses_iid alpha s :
+  0 < alpha -> alpha < 1 -> Forall (fun x => 0 <= x <= u) s ->
+  rejectsb test alpha s = true -> crosses Mi (1 / alpha) [] s = true.
+Proof.
+  intros Ha Ha1 Hr Er.
+  unfold rejectsb in Er. apply existsb_exists in Er. destruct Er as [k [Hk Hex]]. apply in_seq in Hk. cbv zeta in Hex.
+  apply existsb_exists in Hex. destruct Hex as [h [Hh Hle]].
+  set (xs := firstn k s) in *.
+  assert (Hxne : xs <> []). { intro E. pose proof (f_equal (@length Q) E) as HL. unfold xs in HL. rewrite firstn_length in HL. simpl in HL. lia. }
+  assert (Hxr : Forall (fun x => 0 <= x <= u) xs).
+  { apply Forall_forall. intros x Hx. rewrite Forall_forall in Hr. apply Hr. eapply In_firstn_In; eauto. }
+  destruct (reject_link alpha xs h Ha Ha1 Hxne Hxr Hh Hle) as [j [Hj Hq]].
+  assert (Hxl : length xs = k) by (unfold xs; rewrite firstn_length; lia).
+  apply (crosses_firstn Mi (1 / alpha) s [] (S j)). rewrite app_nil_l. apply Qle_bool_iff.
+  assert (E : firstn (S j) xs = firstn (S j) s) by (unfold xs; rewrite firstn_firstn; f_equal; lia).
+  rewrite <- E. exact Hq.
+Qed.
 End IIDRisk.
